@@ -37,6 +37,16 @@ CLAIMED = {
    text="Component level: seeded Set/Get/Has/Delete/Len histories (10-80 operations, capacity 0-4 or 1000, six keys, unique values) compared after every operation - return value and recency order - with a list model; 2-4 concurrent clients with yields before every lock acquisition, invocation/return stamped with the simulator's event sequence number, checked with porcupine against the same model plus a final recency snapshot, and executed in the -race build. Router level: after a request resolved to a dynamic route the most recent cache key must be exactly method+path, and an immediate repeat must be a cache hit with no store. Sampling, not enumeration.",
    note="Whether Has counts as a read is not stated: both readings are accepted, but one of them must explain the whole history. HEAD requests may be cached under their GET fallback. Router-level paths are generated already normalised (normalisation is C11). Porcupine timeouts are counted as inconclusive in the evidence, never reported.",
    ref="DESIGN.md §4.8"),
+ "C04": dict(
+   technique="deterministic simulation (thin claim): seeded registration programs and handler behaviours run under the seeded scheduler, pool and cache seams; absolute oracle = registration model + one-cursor interpreter of the handler scripts",
+   text="Seeded registration programs (global Use calls before and after routes, nested groups with Use inside, route middleware passed at registration and attached later, custom NotFound/NotAllowed, chains up to the limit) and per-handler behaviours (Next once, twice, never), single requests and 2-4 concurrent clients; the enter/leave sequence of every request must equal what the documented order prescribes. Thin: the statement names no schedule or fault; the simulator owns the interleaving, the pool and the cache on which the per-request chain assembly demonstrably depends (see the repaired cross-talk defect); the single-client profile is model-based testing of programs. Sampling, not enumeration.",
+   note="Which route a request reaches and the registered path are taken from the router itself (Match on a non-caching twin), so routing or group-prefix defects (C01, C12: not claimed) cannot raise an alarm here.",
+   ref="DESIGN.md §4.2"),
+ "C05": dict(
+   technique="deterministic simulation with cancellation injection (thin claim): a seeded handler aborts at a seeded point (before/after/without Next) in chains up to and beyond the limit, alone and under the seeded scheduler; trace invariants + solo twins for non-aborting requests",
+   text="Seeded cancellation points: one handler of a request (global, group, route middleware, main or fallback handler, any position, chains of 1-62 and a dedicated over-the-limit profile) calls Abort/AbortThen/AbortWithStatus before, after or without Next while the other handlers call Next once, twice or never; oracle: nothing starts after the abort, suspended handlers resume innermost first, IsAborted false before / true after / false throughout where nobody aborts, AbortWithStatus determines the committed status unless already committed, and requests that do not abort equal their solo twin. Thin in the same sense as C04. Sampling, not enumeration.",
+   note="Chains longer than 63 handlers (possible because global middleware is not counted by the registration-time limit) are a recorded known finding, matched by the signature chain>63 only.",
+   ref="DESIGN.md §4.3"),
 }
 
 NA = {
@@ -52,7 +62,7 @@ NA = {
  "C19": "pure encoders over values and headers.",
  "C20": "pure functions of headers, method and wrapper list.",
 }
-PENDING = {k: "check not yet built at this commit (claimed in DESIGN.md §4; under construction)" for k in ["C04","C05","C16"]}
+PENDING = {k: "check not yet built at this commit (claimed in DESIGN.md §4; under construction)" for k in ["C16"]}
 
 def main():
     checks = []
